@@ -663,6 +663,26 @@ def _canon_counts(e):
     return e.replace(sp.Function("count_nonzero"), sp.Function("sum"))
 
 
+def gather_normal_form(v):
+    """One vector made of the entries of a list of 1-d vectors: np.array(_flatten_list(X)), np.concatenate(X), np.hstack(X) are the
+    same vector `flat(X)`."""
+    fn = lambda x: getattr(getattr(x, "func", None), "__name__", "")      # noqa: E731
+    if v is None or not hasattr(v, "replace"):
+        return v
+    FLAT = sp.Function("flat")
+    for _ in range(3):
+        # [f for f in X] (also with a type-preserving conversion per element, stripped by the translator) is X
+        v = v.replace(lambda x: fn(x) == "comp" and len(x.args) == 2 and fn(x.args[1]) == "gen" and len(x.args[1].args) == 2 and x.args[0] == x.args[1].args[0],
+                      lambda x: x.args[1].args[1])
+        v2 = v.replace(lambda x: fn(x) in ("array", "asarray") and len(x.args) >= 1 and fn(x.args[0]) in ("_flatten_list", "flat"), lambda x: FLAT(x.args[0].args[0]))
+        v2 = v2.replace(lambda x: fn(x) == "_flatten_list" and len(x.args) == 1, lambda x: FLAT(x.args[0]))
+        v2 = v2.replace(lambda x: fn(x) in ("concatenate", "hstack") and len(x.args) == 1 and fn(x.args[0]) != "comp", lambda x: FLAT(x.args[0]))
+        if v2 == v:
+            break
+        v = v2
+    return v
+
+
 def check_accessor_table(ck: Checker, prog: Program, cls: Class, rule: str, table: Dict[str, List[str]], guards: Optional[Dict[str, Dict[str, str]]] = None):
     """Every returning path of each accessor yields one of the expected expressions (all listed ones present); `guards`
     optionally names, per accessor, the condition under which an expected expression must be returned
@@ -683,7 +703,7 @@ def check_accessor_table(ck: Checker, prog: Program, cls: Class, rule: str, tabl
             got = _canon_counts(l.value) if l.value is not None else None
             hit = None
             for i, w in enumerate(want_exprs):
-                if got is not None and equal(got, w):
+                if got is not None and equal(gather_normal_form(got), gather_normal_form(w)):
                     hit = i
             if hit is None:
                 ck.violation(rule, m.qualname, f"return {str(got)[:90]}",
